@@ -8,7 +8,7 @@
     *specification* evaluated on the implementation's own output (not the crop of what the
     untrimmed canvas shows / wrong size / colours left on at the end of a row / for
     graphics: not the selected lines, not blank). *)
-From Coq Require Import List ZArith Bool Lia.
+From Coq Require Import List ZArith Bool Lia Uint63.
 Import ListNotations.
 From TI Require Import lib.Term lib.TermFacts lib.RectCheck model.Padding model.Trim model.TrimSpec.
 Open Scope Z_scope.
@@ -18,8 +18,41 @@ Record tobs := {
   o_dis : Z;                    (* disguise pairs appended to every yielded row *)
   o_idx : list Z                (* per yielded row: index into the table *)
 }.
-(** short constructor name: the case files hold thousands of observations *)
-Definition Ob := Build_tobs.
+(** The case files hold thousands of observations; each is written as a short list of
+    primitive 63-bit integers (parsed natively, unlike records of [Z] numerals): a header
+    word whose base-1024 digits (least significant first) are
+    [trim_left; trim_top; cols + 1 (0 = None); rows + 1 (0 = None); disguise; n], then the
+    [n] row indices, six base-1024 digits per word. *)
+Fixpoint digits (n : nat) (z : Z) : list Z :=
+  match n with O => [] | S k => (z mod 1024) :: digits k (z / 1024) end.
+Definition dec_opt (v : Z) : option Z := if v =? 0 then None else Some (v - 1).
+Definition dec_obs (ws : list Uint63.int) : tobs :=
+  match ws with
+  | hd :: rest =>
+    match digits 6 (Uint63.to_Z hd) with
+    | [tl; tp; c; r; d; n] =>
+      {| o_tl := tl; o_tt := tp; o_cols := dec_opt c; o_rows := dec_opt r; o_dis := d;
+         o_idx := firstn (Z.to_nat n) (flat_map (fun w => digits 6 (Uint63.to_Z w)) rest) |}
+    | _ => {| o_tl := -1; o_tt := -1; o_cols := None; o_rows := None; o_dis := 0; o_idx := [] |}
+    end
+  | [] => {| o_tl := -1; o_tt := -1; o_cols := None; o_rows := None; o_dis := 0; o_idx := [] |}
+  end.
+
+(** Tokens of text rows are written as 63-bit words too: the low 4 bits select the kind
+    (0 space, 1 upper half, 2 lower half, 3 other glyph, 4 NUL, 5 SGR reset, 6 foreground,
+    7 background, 8 = a token written out literally in the case's auxiliary list), the
+    remaining bits hold the glyph code / r + 256 g + 65536 b / the index. *)
+Definition dec_rgb (v : Z) : rgb := (v mod 256, (v / 256) mod 256, v / 65536).
+Definition dec_tok (aux : list tok) (w : Uint63.int) : tok :=
+  let z := Uint63.to_Z w in
+  let k := z mod 16 in
+  let v := z / 16 in
+  if k =? 0 then TChar GSpace else if k =? 1 then TChar GUpper else if k =? 2 then TChar GLower
+  else if k =? 3 then TChar (GOther v) else if k =? 4 then TNul else if k =? 5 then TSgr0
+  else if k =? 6 then TFg (dec_rgb v) else if k =? 7 then TBg (dec_rgb v)
+  else nth (Z.to_nat v) aux (TCut CutCsi).
+Definition dec_rows (aux : list tok) (rows : list (list Uint63.int)) : list (list tok) :=
+  map (map (dec_tok aux)) rows.
 
 Record tcase := {
   c_gfx : bool;                 (* graphics-based image *)
